@@ -1143,6 +1143,13 @@ class Verifier(Interp):
                     env[p] = Special("kwargs", items={k: self.fresh(t, "arg." + k) for k, t in ty.items()})
                 elif isinstance(ty, Ty) and ty.kind == "cls":
                     env[p] = ClsV(*ty.args)
+                elif isinstance(ty, Ty) and ty.kind == "oneof":
+                    # parameter ranges over the rows of a constant table: complete case split
+                    rows = self.repo.const(ty.args[0], ty.args[1])
+                    j = self.choose(len(rows), "row")
+                    self.unrolled.add("parameter %s of %s: case split over the %d rows of %s" % (
+                        p, short, len(rows), ty.args[1]))
+                    env[p] = Conc(rows[j])
                 else:
                     env[p] = self.fresh(ty, "arg." + p)
             self.st.vars = dict(env)
@@ -1192,6 +1199,10 @@ class Verifier(Interp):
             self.set_field(base, node.attr, v)
         res = val
         if con.returns is not None:
+            if isinstance(val, NoneV) and con.returns.kind not in ("none", "opt", "any"):
+                # falling off the end returns None where a value is promised: the path must be infeasible
+                self.emit("%s#post.returns_a_value" % short, z3.BoolVal(False), meta={"kind": "post"})
+                return
             res = self.coerce(val, con.returns)
         env2 = dict(env)
         env2["result"] = res
